@@ -22,7 +22,12 @@ var c09APIs = []string{"Get", "Routes(GET,POST)", "Routes(GET;POST)", "Any", "Po
 var c09HdrSets = [][]string{{}, {"X-K", "^v$"}, {"X-K", "", "Y-K", "b"}, {"X-K", ""}}
 var c09ReqHdrs = []map[string]string{{}, {"X-K": "v"}, {"X-K": "w"}, {"X-K": ""}, {"X-K": "v", "Y-K": "b"}, {"X-K": "w", "Y-K": "xbx"}, {"X-K": "", "Y-K": "b"},
 	// a header sent in several fields (the values are separated by 0x1f here): the first field is the one http.Header.Get reports
-	{"X-K": "v\x1fw"}, {"X-K": "w\x1fv"}, {"X-K": "\x1f"}}
+	{"X-K": "v\x1fw"}, {"X-K": "w\x1fv"}, {"X-K": "\x1f"},
+	// two constrained headers whose expressions disagree on each other's values, straight and crossed
+	{"X-K": "v", "Y-K": "w"}, {"X-K": "w", "Y-K": "v"}}
+
+// c09HdrSetsRespec: the constraint sets of the re-specification histories (one more than the BFS alphabet)
+var c09HdrSetsRespec = append(append([][]string{}, c09HdrSets...), []string{"X-K", "^v$", "Y-K", "^w$"})
 var c09Paths = []string{"/s", "/o", "/o/t", "/o/u", "/d/v", "/e", "/e/v", "/zz", "/o/", "//s", "/d/v/w"}
 var c09Methods = []string{"GET", "POST", "PUT"}
 
@@ -378,7 +383,7 @@ func c09Respecify(r *core.Run) {
 	if r.Thorough() {
 		kOne, kTwo = 6, 5
 	}
-	r.Bounds["respecification_histories"] = fmt.Sprintf("%d registration prefixes x every sequence of <=%d (one route) / <=%d (two routes) Headers() calls over %d constraint sets", len(c09Prefixes), kOne, kTwo, len(c09HdrSets))
+	r.Bounds["respecification_histories"] = fmt.Sprintf("%d registration prefixes x every sequence of <=%d (one route) / <=%d (two routes) Headers() calls over %d constraint sets", len(c09Prefixes), kOne, kTwo, len(c09HdrSetsRespec))
 	type job struct {
 		pre   []c09Op
 		first c09Op
@@ -388,7 +393,7 @@ func c09Respecify(r *core.Run) {
 	hops := func(pre []c09Op) []c09Op {
 		var out []c09Op
 		for i := range pre {
-			for _, h := range c09HdrSets {
+			for _, h := range c09HdrSetsRespec {
 				out = append(out, c09Op{Kind: "headers", Target: i, Pairs: h})
 			}
 		}
